@@ -149,6 +149,24 @@ class World(ControlWorld):
             free = [s for s in sessions if s not in self.parked]
             if not free:
                 break
+            if rng.random() < 0.1:
+                # the program that serves the pool also uses it directly
+                tok = targets.side.set("pre")
+                try:
+                    what = rng.choice(["lock", "unlock", "spawn", "cancel_all", "pool_size"])
+                    if what == "spawn":
+                        if not pool.is_locked:
+                            (pool.apply(targets.work, args=(step,)) if self.sc["cls"] == "T" else pool.start(1))
+                    elif what == "pool_size":
+                        pool.pool_size = rng.choice([1, 2, 5, 9])
+                    else:
+                        getattr(pool, what)()
+                except Exception as e:  # noqa: BLE001
+                    self.note("direct", what, "raised", type(e).__name__)
+                finally:
+                    targets.side.reset(tok)
+                await self.idle()
+                self.sit["C18.direct_use_between_lines"] += 1
             s = rng.choice(free)
             x = rng.random()
             if x < 0.05:
@@ -333,13 +351,37 @@ class SocketWorld(c19.World):
                 if o != c and self.clients[o].inbox:
                     self.violate("C18.isolation", f"client {o} received {self.clients[o].take()[:60]!r} although client {c} sent the line")
                     return
+        if sc.get("stop_while_waiting") and alive:
+            # a client waits inside a waiting command; the program stops the control server, then ends the wait itself:
+            # the command was accepted and executed, so its one reply is still owed to that client
+            c = alive[0]
+            cl = self.clients[c]
+            got = await self.command(cl, "until-closed")
+            if got:
+                self.violate("C18.one_reply", f"until-closed answered {got!r} although the pool is open")
+            task.cancel()
+            self.stopped = True
+            await self.settle()
+            closing = asyncio.ensure_future(self.pool.gather_and_close(return_exceptions=True))
+            await self.settle()
+            if not closing.done():
+                closing.cancel()
+                self.sit["C18.socket_close_blocked"] += 1
+            else:
+                got = cl.take()
+                if got != b"True\n":
+                    self.violate("C18.one_reply", f"the reply to until-closed after the pool was closed (server stopped meanwhile) is {got!r}, expected b'True\\n'")
+                else:
+                    self.sit["C18.socket_reply_after_stop"] += 1
+            alive = [a for a in alive]
         for c in list(alive):
             await self.disconnect(self.clients[c], "close")
-        task.cancel()
-        self.stopped = True
+        if not self.stopped:
+            task.cancel()
+            self.stopped = True
         await self.settle()
 
 
 def gen_socket_case(rng):
     return {"sockets": True, "transport": rng.choice(["unix", "unix", "tcp"]), "cls": rng.choice(["T", "S"]), "order": [], "nclients": rng.choice([2, 2, 3]),
-            "n": rng.randint(6, 16), "seed": rng.getrandbits(32)}
+            "n": rng.randint(6, 16), "seed": rng.getrandbits(32), "stop_while_waiting": rng.random() < 0.4}
